@@ -29,6 +29,19 @@ CHECKS = {
  "C04": dict(engine="vsched", technique=A_TECH, ref="5/C04", note=A_NOTE,
              text="Same executions plus fault runs (begin() raises in worker w; functor raises at item j): per-worker event log must match begin, begin-returned, item*, end exactly once each "
                   "in that order (also on faults), chunks per worker <= quota, until_all_ready() returns happens-after every begin (vector clocks), nothing left running after __exit__."),
+ "C05": dict(engine="vsched", technique=A_TECH + "; spurious Empty of multiprocessing.Queue as bounded environment deviation", ref="5/C05", note=A_NOTE,
+             text="All schedules within <=3 (quick) / <=4 preemptions and <=1 spurious Empty of the real pools.py / maps.py / workers.py (FunctorMap with 1-3 workers, chunk sizes, "
+                  "empty and lazy input, two and three consecutive calls; mul_p_map with 1-2 workers incl. consecutive calls on the shared class-level queues); oracle: result == map in order, "
+                  "termination, queues empty afterwards, no process left."),
+ "C14": dict(engine="vsched", technique=A_TECH + "; oracles evaluated on the happens-before trace (vector clocks)", ref="5/C14", note=A_NOTE + " Real files in /dev/shm; print+flush of a line modelled as one atomic write.",
+             text="The real storage.py with Manager lists / Value / RLock virtual and real files: two writer processes + reader (process or parent) over ids {0,1,2} in sharp shapes (gaps, reversed, "
+                  "same id twice, pre-sized index) under all schedules within <=2 (quick) / <=3 preemptions; reads must return IndexError (unless the store happened-before the read) or exactly "
+                  "the stored text; exactly one of two stores per id succeeds; sequential arrival orders over ids {0..3}: len / is_contiguous / iteration / lookups after every writer, "
+                  "flush() empties and resets (also for an object that had written before)."),
+ "C18": dict(engine="xproc", technique="stateless model checking over real fork()ed processes: all interleavings of the announced file operations (2 processes), preemption-bounded (3+)",
+             ref="5/C18", note="Trusted: the pipe-driven scheduler mc/xproc.py and the proxies installed by shadowing files.open / files.mmap (they delegate to the real file / mmap objects); the OS.",
+             text="Real fork()ed processes sharing one opened RandomLineAccessFile / MemoryMappedRandomLineAccessFile / MapAccessFile (5 lines x 6 kB): every interleaving of open/close/seek/"
+                  "readline of parent + 1 child (all), parent + 2 children (<=2 quick / <=3 preemptions), grandchild and 3-read sequences (thorough); every read of every process must equal the reference line."),
  "C08": dict(engine="seqmc", technique="explicit-state exploration of the real object vs reference model (whole reachable graph, bounded size)",
              text="Every mutator applied in every reachable state (list size <= 5 quick / 7 thorough) of the real DoublyLinkedList in three payload modes "
                   "(distinct, all equal, uncomparable), each followed by a full forward/backward link walk, len() and iteration against a list of node "
